@@ -246,88 +246,129 @@ def _refs_in(F, body, name):
     return out
 
 
-def r4(F, R):
+def field_index(F, owner, name):
+    """Index of field `name` of (possibly foreign) ADT `owner`, read off any place projection of the crate's MIR."""
+    for b in F.crate_bodies():
+        for bb in b.blocks:
+            for st in bb["stmts"]:
+                for pl in (st.get("pl"), (st.get("rv") or {}).get("pl")):
+                    for e in (pl or {}).get("p", []):
+                        if isinstance(e, dict) and e.get("o") == owner and e.get("n") == name:
+                            return e["f"]
+    return None
+
+
+def _strip(t):
+    while isinstance(t, tuple) and t and t[0] in ("ref", "deref", "refto"):
+        t = t[1]
+    return t
+
+
+def _addends(t):
+    """Flatten a sum: (constant part, [other addends])."""
+    if isinstance(t, tuple) and t and t[0] == "bin" and t[1] == "Add":
+        c1, r1_ = _addends(t[2])
+        c2, r2_ = _addends(t[3])
+        return c1 + c2, r1_ + r2_
+    if isinstance(t, tuple) and t and t[0] == "const" and isinstance(t[1], int) and not isinstance(t[1], bool):
+        return t[1], []
+    return 0, [t]
+
+
+def ingest_table(F):
+    """Path table of the ingestion routine over TWO loop turns (deep.py, unroll=2): per row the items received from the
+    parser stream, the sends and what `ParsingFinished` finally carries."""
     ing = roles.insert_features(F)
-    aggs = [(s, st) for s, st in ing.assigns(lambda st: st["rv"]["k"] == "agg" and st["rv"].get("adt") == "event::Cucumber" and st["rv"]["variant"] == "ParsingFinished")]
-    if len(aggs) != 1:
-        raise Unverifiable("ParsingFinished aggregate")
-    s_a, st = aggs[0]
-    nx = [a for a in A.awaits(ing) if re.search(r"stream::Next<", a.fut_type)]
-    if len(nx) != 1:
-        raise Unverifiable("stream next await")
-    sends = roles.sends(F, [ing])
-    pf_send = [(s, t) for s, t in sends if s_a in A.slice_back(ing, [t["args"][1]], stop_calls=[r"Future::poll$"]).sites]
-    R.check(len(pf_send) == 1, "summary-send-site", s_a, "", f"{len(pf_send)} sends of ParsingFinished")
-    if len(pf_send) == 1:
-        s_s = pf_send[0][0]
-        R.check(not ing.in_cycle(s_s) and not ing.site_reaches(s_s, nx[0].poll_site), "summary-after-loop", s_s, "ParsingFinished is sent once, after the ingestion loop",
-                "ParsingFinished can be sent inside the ingestion loop (several times / before all features)")
-        R.check(not ing.entry_reaches_return(stop=[s_s]), "summary-on-every-path", s_s, "every path sends ParsingFinished", "a path through ingestion returns without sending ParsingFinished")
-        fin = [(s, t) for s, t in ing.calls() if F.callee_body(t) is not None and any(callee_is(t2, r"atomic::Atomic.*::store$") for _, t2 in F.callee_body(t).calls())]
-        R.check(len(fin) == 1 and ing.dominates(s_s, fin[0][0]), "summary-before-finished-flag", s_s, "ParsingFinished precedes Features::finish()",
-                "the finished flag can be set before ParsingFinished is sent (run-Finished could overtake it)")
-    # fields <- accumulators
-    fields = dict(zip(st["rv"]["fields"], st["rv"]["ops"]))
-    want = {
-        "features": ("Ok", "one", None),
-        "rules": ("Ok", "len", ("gherkin::Feature", "rules")),
-        "scenarios": ("Ok", "call", r"count_scenarios$"),
-        "steps": ("Ok", "call", r"count_steps$"),
-        "parser_errors": ("Err", "one", None),
-    }
-    acc_of = {}
-    for name, op in fields.items():
-        cp = A.canon_place(ing, op_place(op))
-        acc_of[name] = cp["l"]
-    R.check(len(set(acc_of.values())) == 5, "summary-fields-distinct", s_a, "five distinct accumulators", f"ParsingFinished fields share accumulators: {acc_of}")
-    for name, (arm, how, what) in want.items():
-        l = acc_of.get(name)
-        ds = [(s, k, p) for s, k, p in ing.defs.get(l, []) if k == "assign"]
-        incs = []
-        for s, k, p in ds:
-            rv = p["rv"]
-            if rv["k"] == "use" and const_int(rv["op"]) == 0:
-                continue  # initialisation
-            src = op_place(rv["op"]) if rv["k"] == "use" else None
-            sd = ing.single_def(src["l"]) if src is not None else None
-            if sd and sd[1] == "assign" and sd[2]["rv"]["k"] == "bin" and sd[2]["rv"]["op"] in ("AddWithOverflow", "Add"):
-                incs.append((s, sd[2]["rv"]))
-            else:
-                incs.append((s, None))
-        ok = len(incs) == 1 and incs[0][1] is not None
-        why = f"{len(incs)} updates"
-        if ok:
-            s_i, b = incs[0]
-            vc = A.vc_at(ing, s_i)
-            arm_ok = any(v == frozenset([arm]) for k, v in vc.items())
-            same = op_place(b["a"]) is not None and A.canon_place(ing, op_place(b["a"]))["l"] == l
-            if how == "one":
-                amt = const_int(b["b"]) == 1
-            elif how == "len":
-                bsl = A.slice_back(ing, [b["b"]], stop_calls=[r"Future::poll$"])
-                amt = bsl.has_call(r"Vec::<.*>::len$") and what in bsl.fields
-            else:
-                bsl = A.slice_back(ing, [b["b"]], stop_calls=[r"Future::poll$"])
-                amt = bsl.has_call(what) and not bsl.has_call(*[w[2] for n2, w in want.items() if w[1] == "call" and w[2] != what])
-            # on every path through that arm (also the one that leaves the loop)
-            every = True
-            ents = [(sw, tg) for sw, tg in W.arm_entry_targets(ing, "std::result::Result", arm)
-                    if "gherkin::Feature" in ing.locals[A.canon_place(ing, A.local_def_desc(ing, op_local(ing.blocks[sw]["term"]["discr"]))[1])["l"]]]
-            for sw, tg in ents:
-                seen, work = set(), [tg]
-                exits = {nx[0].poll_site.bb} | ({pf_send[0][0].bb} if pf_send else set())
-                while work:
-                    x = work.pop()
-                    if x in seen or x == s_i.bb:
-                        continue
-                    seen.add(x)
-                    if x in exits:
-                        every = False
-                        break
-                    work.extend(ing.succ[x])
-            ok = arm_ok and same and bool(amt) and every and bool(ents)
-            why = f"arm={arm_ok} accumulates-self={same} amount={bool(amt)} on-every-path-of-the-arm={every}"
-        R.check(ok, f"summary-field/{name}", incs[0][0] if incs else s_a, f"{name} updated once per item in the {arm} arm", f"ParsingFinished.{name} is not accumulated as specified ({why})")
+    sync_small = lambda cb: not any(c.is_coroutine for c in F.children.get(cb.key, [])) and len(cb.blocks) <= 80
+    rows = D.Deep(F, ing, unroll=2, inline_only=sync_small, opaque=r"count_scenarios$|count_steps$", max_paths=3000).run()
+    out = []
+    for p in rows:
+        hist = []
+        for i, e in enumerate(p.effects):
+            if e[0] == "await" and e[1][0] == "call" and re.search(r"StreamExt::next$|TryStreamExt::try_next$", e[1][1]):
+                a = ("await", e[1], e[3])
+                o = [out_ for c, out_ in p.conds if c == ("discr", a)]
+                if o == ["Some"]:
+                    item = ("field", ("as", a, "Some"), 0)
+                    k = [out_ for c, out_ in p.conds if c == ("discr", item)]
+                    hist.append((i, k[0] if len(k) == 1 else "?", ("field", ("as", item, k[0]), 0) if len(k) == 1 else None))
+                elif o == ["None"]:
+                    hist.append((i, "end", None))
+                else:
+                    hist.append((i, "?", None))
+        sends = [(i, e) for i, e in enumerate(p.effects) if e[0] == "call" and re.search(r"UnboundedSender(::<.*>)?::unbounded_send$", e[1])]
+        pf, errs = [], []
+        for i, e in sends:
+            v = e[2][1] if len(e[2]) > 1 else None
+            fin = [x for x in D.subterms(v) if D.is_variant(x, "event::Cucumber", "ParsingFinished")] if v is not None else []
+            if fin:
+                pf.append((i, fin[0]))
+            elif v is not None and D.is_variant(v, "std::result::Result", "Err"):
+                errs.append((i, v[3][0]))
+        flag = [i for i, e in enumerate(p.effects) if e[0] == "call" and re.search(r"atomic::Atomic\w*(::<.*>)?::store$", e[1])]
+        out.append({"p": p, "hist": hist, "pf": pf, "errs": errs, "flag": flag})
+    return ing, out
+
+
+def r4(F, R):
+    """`ParsingFinished` — sent once, after the loop, before the finished flag, with counts that equal what was received:
+    decided on the ingestion routine's table over two loop turns (every row: the received items Ok(f)/Err(e) in order)."""
+    ing, rows = ingest_table(F)
+    done = [r for r in rows if not r["p"].cut]
+    if not done or any(k == "?" for r in rows for _, k, _ in r["hist"]):
+        raise Unverifiable("ingestion table: no completed row, or a stream item whose kind is not examined")
+    R.check(all(len(r["pf"]) == 1 for r in done), "summary-send-site", ing, "one ParsingFinished per completed path", "a completed path of ingestion sends ParsingFinished not exactly once")
+    R.check(all(len(r["pf"]) == 1 for r in done), "summary-on-every-path", ing, "every path sends ParsingFinished", "a path through ingestion returns without sending ParsingFinished")
+    after = all(not r["pf"] for r in rows if r["p"].cut) and all(r["pf"][0][0] > max([i for i, _, _ in r["hist"]] + [i for i, _ in r["errs"]] + [-1]) for r in done if r["pf"])
+    R.check(after, "summary-after-loop", ing, "ParsingFinished is sent once, after the ingestion loop", "ParsingFinished can be sent inside the ingestion loop (several times / before all features or parser errors)")
+    R.check(all(r["flag"] and r["pf"] and min(r["flag"]) > r["pf"][0][0] for r in done) and all(not r["flag"] for r in rows if r["p"].cut), "summary-before-finished-flag", ing,
+            "ParsingFinished precedes Features::finish()", "the finished flag can be set before ParsingFinished is sent (run-Finished could overtake it), or is not set on a completed path")
+    # every received parser error is sent, once, in order (C03: "every parser error exactly once and in order")
+    oke = True
+    for r in rows:
+        want = [f for _, k, f in r["hist"] if k == "Err"]
+        oke = oke and [_strip(e) for _, e in r["errs"]] == want
+    R.check(oke, "errors-forwarded-in-order", ing, "each Err item is sent as it is received", "a parser error received from the stream is not sent exactly once, in order")
+    i_rules = field_index(F, "gherkin::Feature", "rules")
+    if i_rules is None:
+        raise Unverifiable("field index of gherkin::Feature::rules")
+    names = ["features", "rules", "scenarios", "steps", "parser_errors"]
+    adt = F.adts.get(("cucumber", "event::Cucumber"))
+    order = None
+    for v in (adt or {}).get("variants", []):
+        if v["name"] == "ParsingFinished":
+            order = [f["name"] for f in v["fields"]]
+    if order is None or sorted(order) != sorted(names):
+        raise Unverifiable(f"fields of Cucumber::ParsingFinished: {order}")
+    bad = {n: None for n in names}
+    n_rows = 0
+    for r in done:
+        if not r["pf"]:
+            continue
+        n_rows += 1
+        fields = dict(zip(order, r["pf"][0][1][3]))
+        oks = [f for _, k, f in r["hist"] if k == "Ok"]
+        n_err = len([1 for _, k, _ in r["hist"] if k == "Err"])
+        def is_len(t, f):
+            t = _strip(t)
+            return t[0] == "call" and re.search(r"Vec::<.*>::len$|Vec::len$", t[1]) is not None and _strip(t[2][0]) == ("field", f, i_rules)
+        def is_cnt(t, f, rx):
+            t = _strip(t)
+            return t[0] == "call" and re.search(rx, t[1]) is not None and _strip(t[2][0]) == f
+        checks = {
+            "features": lambda c, ts: c == len(oks) and not ts,
+            "parser_errors": lambda c, ts: c == n_err and not ts,
+            "rules": lambda c, ts: c == 0 and len(ts) == len(oks) and all(is_len(t, f) for t, f in zip(ts, oks)),
+            "scenarios": lambda c, ts: c == 0 and len(ts) == len(oks) and all(is_cnt(t, f, r"count_scenarios$") for t, f in zip(ts, oks)),
+            "steps": lambda c, ts: c == 0 and len(ts) == len(oks) and all(is_cnt(t, f, r"count_steps$") for t, f in zip(ts, oks)),
+        }
+        for n in names:
+            c, ts = _addends(fields[n])
+            if not checks[n](c, ts) and bad[n] is None:
+                bad[n] = f"after receiving {[k for _, k, _ in r['hist']]} the field is {D.fmt(ing, fields[n])[:160]}"
+    for n in names:
+        R.check(bad[n] is None and n_rows >= 4, f"summary-field/{n}", ing, f"{n} equals what was received on all {n_rows} completed two-turn paths",
+                f"ParsingFinished.{n} does not equal the number received: {bad[n]}")
     R.floor(9)
 
 
